@@ -20,22 +20,22 @@ CHECKS = {
     "C12": dict(
         category="exploration", design_ref="DESIGN.md 5/C12",
         technique="deterministic simulation: seeded block-command histories against an independently written sparse-disk target behind simulated SG_IO and iSCSI bindings; reference-model check after every command plus transport differential; status-fault configuration separate",
-        text="Seeded histories (3-40 commands, boundary-biased LBAs up to 2**64-2, five block sizes, unique payloads) are executed through the real facade, command classes and both device classes against a target that decodes CDBs from SBC; after every command the read data, the target's disk, the arguments the target decoded and the reference model must agree and the two transports must behave identically (one facade per device or one facade re-pointed between them; fixed or descriptor format sense from the target; a faulted command must not look done). Sampling, not proof.",
+        text="Seeded histories (3-40 commands, boundary-biased LBAs up to 2**64-2, five block sizes, unique payloads; all READ CAPACITY(16) geometry fields varied; 12% on a writable MMC unit with READ/WRITE 10/12, 8% identity-only on units of any of the 32 device types) are executed through the real facade, command classes and both device classes against a target that decodes CDBs from SBC; after every command the read data, the target's disk, the arguments the target decoded and the reference model must agree and the two transports must behave identically (one facade per device or one facade re-pointed between them; fixed or descriptor format sense from the target; a faulted command must not look done). Sampling, not proof.",
         note="Trusts t10/targets.BlockLU and the stub bindings (iSCSI stub moves data according to the Task's direction/length, as on the wire). Transfer lengths above 2**17 blocks not explored."),
     "C15": dict(
         category="exploration", design_ref="DESIGN.md 5/C15",
-        technique="deterministic simulation with fault injection: seeded event histories (execute / replug / unplug / plug / failing close / CHECK CONDITION / close / with-exit) over a virtual /dev namespace; handle model checked over the seam history after every event",
-        text="The OS device node is simulated (inodes, handle generations, close faults of two flavours); SCSIDevice, ISCSIDevice and the facade's context manager run unmodified. After every event the oracle checks, from the recorded seam events, that no command went through a handle whose inode is not the one at the path, that superseded handles were closed, that a fresh handle was opened even when closing the stale one failed, that a vanished node is an error, that detection-off keeps the original handle, and at the end that every handle was released exactly once. Sampling of histories up to 25 events.",
-        note="Node replacement happens between library calls (sequential simulator); TOCTOU between the library's stat and ioctl is not generated. Trusts the virtual /dev model of inode and close semantics."),
+        technique="deterministic simulation with fault injection: seeded event histories (execute / replug / unplug / plug / device returning under another kernel name / failing close / re-open refused once / node vanishing between two system calls of the library / CHECK CONDITION / ioctl error / close / with-exit) over a virtual /dev namespace with device nodes and symbolic links; handle model checked over the seam history after every event",
+        text="The OS device node is simulated (inodes, handle generations, close faults of two flavours); SCSIDevice, ISCSIDevice and the facade's context manager run unmodified. After every event the oracle checks, from the recorded seam events, that no command went through a handle that is not on the node the named path (node or persistent symbolic link) leads to now, that superseded handles were closed, that a fresh handle was opened even when closing the stale one failed, that a vanished node is an error, that detection-off keeps the original handle, and at the end that every handle was released exactly once. Sampling of histories up to 25 events.",
+        note="Node replacement happens between library calls, except the fault that unplugs the node right after an open() of the library succeeded; a node replaced between the library's stat and its ioctl is not generated. Trusts the virtual /dev model of inode and close semantics."),
     "C16": dict(
         category="exploration", design_ref="DESIGN.md 5/C16",
-        technique="deterministic simulation: seeded attach / re-attach / follow-up histories over simulated devices of all 32 types x 8 qualifiers on both transports, with CHECK CONDITION faults on the attach INQUIRY; seam-history and attach-model oracle, plus comparison with a history-free attach",
+        technique="deterministic simulation: seeded attach / re-attach / follow-up histories over simulated devices of all 32 types x 8 qualifiers on both transports and on an application-defined device object, with CHECK CONDITION faults on the attach INQUIRY; seam-history and attach-model oracle, plus comparison with a history-free attach",
         text="All (type, qualifier, transport) combinations are attached alone (enumerated, complete) and seeded histories mix up to 4 devices with re-attach, node retyping and faulted attaches. Oracle: exactly one standard INQUIRY per attach at the seam, devicetype, the family's discriminating commands offered with T10 opcodes, no other family's commands, primary commands for every other type working end to end against a target that dispatches by T10 opcode, and the selected set equal to what a fresh attach selects (no dependence on history).",
         note="Family discriminators are named commands with T10 opcodes from t10/; for unrecognised types only the primary commands are demanded, as the property states."),
     "C09": dict(
         category="exploration", design_ref="DESIGN.md 5/C09, 4.6",
-        technique="deterministic simulation: seeded baton-passing thread scheduler (sys.settrace line/call/return, optionally bytecode, pre-emption points inside pyscsi; random / PCT / boundary strategies) over programs of 1-3 caller threads, plus sequential histories; oracle = each operation's outcome equals the same operation run alone in a pristine process",
-        text="Real threads, but which thread executes each source line of the library is the simulator's seeded decision, so every interleaving is replayable from one integer and the recorded switch list is minimised (ddmin) and replayed in a fresh process. Each operation (construct any of 42 classes - also twice from the same argument objects -, static encode/decode of own and foreign CDBs, build_cdb twice, data-in decode / round trip incl. VPD 83h, facade calls on a private device) is compared with the same operation executed truly alone in its own pristine process; objects held by a thread must be byte-identical at the end. All ordered class pairs are enumerated sequentially in the thorough tier.",
+        technique="deterministic simulation: seeded baton-passing thread scheduler (sys.settrace line/call/return, optionally bytecode, pre-emption points inside pyscsi; random / PCT / boundary strategies) over programs of 1-3 caller threads, plus sequential histories, plus enumeration of every pre-emption point of shared-facade calls and of every command constructor; oracle = each operation's outcome equals the same operation run alone in a pristine process",
+        text="Real threads, but which thread executes each source line of the library is the simulator's seeded decision, so every interleaving is replayable from one integer and the recorded switch list is minimised (ddmin) and replayed in a fresh process. Each operation (construct any of 42 classes - also twice from the same argument objects -, static encode/decode of own and foreign CDBs, build_cdb twice, data-in decode / round trip incl. VPD 83h, cmd.unmarshall() of the own buffer, facade calls on a private device; contention programs on the parameter-list classes) is compared with the same operation executed truly alone in its own pristine process; objects held by a thread must be byte-identical at the end. All ordered class pairs are enumerated sequentially in the thorough tier, as is every single pre-emption point of each of the 42 constructors with a second thread building the same class inside the window (every third point in the quick tier).",
         note="Line/call/return granularity (bytecode granularity in ~12% of runs), at most 3 threads, 8 ops per thread; threading.Lock/RLock are replaced by cooperative locks before import so a lock-based repair cannot deadlock the simulator."),
     "C13": dict(
         category="exploration", design_ref="DESIGN.md 5/C13",
@@ -59,9 +59,9 @@ CHECKS = {
         note="Names starting with '__', type/Enum API attribute names, callable values and NaN are excluded because the property's wording does not fix their behaviour."),
     "C19": dict(
         category="fault_enumeration", design_ref="DESIGN.md 5/C19",
-        technique="deterministic simulation with fault injection at the installation seam: each run imports the library freshly under one of the 4 presence combinations of fake sgio/iscsi bindings (absence = injected fault), then drives init_device/constructors with device strings; oracle over the seam history (no open/stat/connect before a refusal)",
-        text="The four binding configurations x 17 device strings x rw x {init_device, SCSIDevice, ISCSIDevice} x initiator-name variants are enumerated completely in both tiers and random strings are added; every module under pyscsi is imported, every command class built/encoded/decoded and the facade driven over a plain device in each configuration. For refused requests the seam log must be empty; for accepted ones it must show exactly one open/connect on exactly the requested path/URL with the requested mode and initiator name.",
-        note="Absence is simulated with sys.modules[name]=None (ImportError); the real bindings' behaviour for malformed paths/URLs is stubbed leniently."),
+        technique="deterministic simulation with fault injection at the installation seam: each run imports the library freshly under one of the 4 presence combinations of fake sgio/iscsi bindings (absence = injected fault: not installed, or installed but failing to load), then drives init_device/constructors with device strings; oracle over the seam history (no open/stat/connect before a refusal)",
+        text="The four binding configurations x 17 device strings x rw x {init_device, SCSIDevice, ISCSIDevice} x initiator-name variants are enumerated completely in both tiers and random strings are added; every module under pyscsi is imported, every command class built/encoded/decoded and the facade driven over plain device objects of every command-set family in each configuration. For refused requests the seam log must be empty; for accepted ones it must show exactly one open/connect on exactly the requested path/URL with the requested mode and initiator name.",
+        note="Absence is simulated with sys.modules[name]=None (ModuleNotFoundError) or a meta-path finder raising ImportError (unloadable extension); the real bindings' behaviour for malformed paths/URLs is stubbed leniently."),
 }
 
 NOT_APPLICABLE = {
